@@ -155,6 +155,9 @@ func (vc *VC) solveOne(o *Obligation, opts SolveOpts, tally *Tally) {
 		}
 	}
 	o.Status = "unknown"
+	if lastOut != "" {
+		o.Status = "solver-error"
+	}
 	o.Model = strings.Join(log, " ") + "\n" + lastOut
 	if !o.Cover {
 		vc.searchModel(o, q, opts)
